@@ -1,7 +1,8 @@
 (* WindowsApiEmitter.queue_events (read_directory_changes.py) as an executable function, and a
    documented-semantics simulator of ReadDirectoryChangesW.  Definitions only.
 
-   os.path.isdir and os.walk are oracles on the *current* tree (the emitter asks the file system
+   The model follows the repaired code (state carried across calls, fixes/F13-win-rename-state.diff);
+   [queue_events_pinned] is the pinned behaviour.  os.path.isdir and os.walk are oracles on the *current* tree (the emitter asks the file system
    when it processes a notification, not when the notification was generated). *)
 Require Import WD.Base.Prelude WD.Base.BStr WD.Model.SubEvents WD.Model.PlatFs.
 
@@ -67,8 +68,23 @@ Section Emit.
       (o1 ++ o2, l2, s1 || s2)
     end.
 
-  (* one call of queue_events: last_renamed_src_path = "" at the start of every call *)
-  Definition queue_events (es : list native) : list ev * bool :=
+  (* one call of queue_events on the repaired code (fixes/F13): the pending RENAMED_OLD_NAME path is
+     the instance attribute self._last_renamed_src_path ("" at construction), carried from call to
+     call.  Result: (events, new attribute value, stop requested). *)
+  Definition queue_events (last : bytes) (es : list native) : list ev * bytes * bool := batch_go last es.
+
+  (* successive calls, one per read *)
+  Fixpoint queue_events_seq (last : bytes) (reads : list (list native)) : list ev * bytes * bool :=
+    match reads with
+    | [] => ([], last, false)
+    | es :: rest =>
+      let '(o1, l1, s1) := queue_events last es in
+      let '(o2, l2, s2) := queue_events_seq l1 rest in
+      (o1 ++ o2, l2, s1 || s2)
+    end.
+
+  (* the pinned code: a local variable, "" at the start of every call *)
+  Definition queue_events_pinned (es : list native) : list ev * bool :=
     let '(o, _, s) := batch_go [] es in (o, s).
 End Emit.
 
